@@ -65,7 +65,7 @@ AxisTab(kv, den, p, pts) ==      \* [m][k+1][i+1] = D^k N_i at pts[m] w.r.t. the
 KsOf(D, bs) ==                   \* coordinates bs (x = 1) -> derivative order per axis
   Tab(D, LAMBDA a : Cardinality({i \in 1..Len(bs) : D - bs[i] + 1 = a}))
 HessPairs(D) ==                  \* the library's packed order
-  IF D = 1 THEN << <<1,1>> >>
+  IF D = 0 THEN <<>> ELSE IF D = 1 THEN << <<1,1>> >>
   ELSE IF D = 2 THEN << <<1,1>>, <<1,2>>, <<2,2>> >>
   ELSE << <<1,1>>, <<1,2>>, <<1,3>>, <<2,2>>, <<2,3>>, <<3,3>> >>
 HessIndex(D, b1, b2) ==          \* position (1-based) of the pair {b1,b2} in the packed order
@@ -81,7 +81,7 @@ DotNZ(w, c) ==
 GridSizes(grid) == Tab(Len(grid), LAMBDA a : Len(grid[a]))
 
 (* derivatives of the coefficient splines themselves (numerators and, as the last component, the weight) *)
-RawSheet(G, grid) ==
+RawSheetD(G, grid, md) ==     \* md = highest derivative order computed (1 or 2); d2 = <<>> for md = 1
   LET D    == SDim(G)
       AxT  == Tab(D, LAMBDA a : AxisTab(G.kvs[a], G.dens[a], G.ps[a], grid[a]))
       gs   == GridSizes(grid)
@@ -94,17 +94,19 @@ RawSheet(G, grid) ==
         LET ks == KsOf(D, bs)
             BV == Tab(npts, LAMBDA J : BasisVec(Tab(D, LAMBDA a : AxT[a][gmi[J][a] + 1][ks[a] + 1]), mis))
         IN Tab(Len(CC), LAMBDA c : Tab(npts, LAMBDA J : DotNZ(BV[J], CC[c])))
-  IN [d0 |-> Der(<<>>), d1 |-> Tab(D, LAMBDA b : Der(<<b>>)), d2 |-> Tab(Len(hp), LAMBDA h : Der(hp[h])),
+  IN [d0 |-> Der(<<>>), d1 |-> Tab(D, LAMBDA b : Der(<<b>>)),
+      d2 |-> IF md >= 2 THEN Tab(Len(hp), LAMBDA h : Der(hp[h])) ELSE <<>>,
       npts |-> npts, gs |-> gs]
+RawSheet(G, grid) == RawSheetD(G, grid, 2)
 
 (* the function itself: val[c][J], jac[b][c][J], hess[h][c][J].  NURBS: G w = N differentiated by the Leibniz rule:
      N_b  = G_b w + G w_b ,   N_bc = G_bc w + G_b w_c + G_c w_b + G w_bc                                          *)
-Sheet(G, grid) ==
-  LET raw == RawSheet(G, grid)
+SheetD(G, grid, md) ==
+  LET raw == RawSheetD(G, grid, md)
       D   == SDim(G)
       nc  == Len(G.C)
       np  == raw.npts
-      hp  == HessPairs(D)
+      hp  == IF md >= 2 THEN HessPairs(D) ELSE <<>>
   IN IF ~IsNurbs(G) THEN [val |-> raw.d0, jac |-> raw.d1, hess |-> raw.d2, npts |-> np, gs |-> raw.gs]
      ELSE
      LET w   == raw.d0[nc + 1]
@@ -118,6 +120,7 @@ Sheet(G, grid) ==
                     Div(Sub(Sub(Sub(raw.d2[h][c][J], Mul(jac[b1][c][J], wb[b2][J])), Mul(jac[b2][c][J], wb[b1][J])),
                             Mul(val[c][J], wh[h][J])), w[J]))))
      IN [val |-> val, jac |-> jac, hess |-> hes, npts |-> np, gs |-> raw.gs]
+Sheet(G, grid) == SheetD(G, grid, 2)
 
 (* evaluation of one object at one point given in xyz order (a 1-point grid) *)
 PointGrid(X) == LET D == Len(X) IN Tab(D, LAMBDA a : <<X[D - a + 1]>>)
@@ -219,6 +222,34 @@ Arc(m, cs, r) ==
   IN [kind |-> "nurbs", kvs |-> <<ArcKV(m)>>, dens |-> <<m>>, ps |-> <<2>>, osh |-> <<2>>,
       C |-> <<Tab(n, LAMBDA k : Mul(r, A[k][1])), Tab(n, LAMBDA k : Mul(r, A[k][2]))>>,
       W |-> Tab(n, LAMBDA k : IF (k % 2) = 1 THEN One ELSE cs[1])]
+
+-------------------------------------------------------------------------------
+(* RECIPES: expressions over constructors and operations; leaves [op |-> "obj", obj |-> G] are explicit control nets.
+   Build(r) = the object a recipe denotes, by the control-net models above. *)
+ArgAt(arg, c) == IF Len(arg) = 1 THEN arg[1] ELSE arg[((c - 1) % Len(arg)) + 1]     \* numpy broadcasting (last axis)
+ArgVec(arg, nc) == Tab(nc, LAMBDA c : ArgAt(arg, c))
+
+RECURSIVE Build(_)
+Build(r) ==
+  CASE r.op = "obj"       -> r.obj
+    [] r.op = "translate" -> LET G == Build(r.a) IN Translate(G, ArgVec(r.arg, Len(G.C)))
+    [] r.op = "scale"     -> LET G == Build(r.a) IN Scale(G, ArgVec(r.arg, Len(G.C)))
+    [] r.op = "matrix"    -> ApplyMatrix(Build(r.a), r.A)
+    [] r.op = "rotate"    -> Rotate2D(Build(r.a), r.cs)
+    [] r.op = "getint"    -> GetItemInt(Build(r.a), r.i)
+    [] r.op = "getlist"   -> GetItemList(Build(r.a), r.is)
+    [] r.op = "asnurbs"   -> AsNurbs(Build(r.a))
+    [] r.op = "asvector"  -> AsVector(Build(r.a))
+    [] r.op = "copy"      -> CopyOf(Build(r.a))
+    [] r.op = "boundary"  -> Boundary(Build(r.a), r.ax, r.side)
+    [] r.op = "tp"        -> TensorProduct(AsVector(Build(r.a)), AsVector(Build(r.b)))
+    [] r.op = "osum"      -> OuterSum(Build(r.a), Build(r.b))
+    [] r.op = "oprod"     -> OuterProduct(Build(r.a), Build(r.b))
+    [] r.op = "cyl"       -> Cylinderize(AsVector(Build(r.a)), r.z0, r.z1, r.s0, r.s1)
+    [] r.op = "line"      -> LET L == LineSegment(r.x0, r.x1, r.s0, r.s1, r.n) IN L
+    [] r.op = "unitcube"  -> UnitCube(r.dim, r.n)
+    [] r.op = "identity"  -> Identity(r.ext)
+    [] r.op = "arc"       -> Arc(r.m, r.cs, r.r)
 
 -------------------------------------------------------------------------------
 (* polynomial maps (user-defined functions): comps[c] = sequence of monomials [k |-> rational, e |-> <<ex, ey, ez>>] *)
